@@ -164,3 +164,36 @@ Definition run_ev (cc : ccfg) (w : wcfg) (args : list bytes) : bytes :=
       end
   | [] => bad_input
   end.
+
+(** SRT <k> <13 claims tokens>: ValidateAndSign with key k, then decode the
+    token into a fresh Evidence and verify (matching key, signing Evidence,
+    another key).  Observed: result, protected-header content, payload,
+    decoded claims, three verification outcomes. *)
+Definition run_srt (cc : ccfg) (w : wcfg) (args : list bytes) : bytes :=
+  match args with
+  | tk :: rest =>
+      match parse_N tk, parse_claims rest with
+      | Some k, Some (c, []) =>
+          let s := {| sg_key := k; sg_alg := key_alg k; sg_beh := SignsOk |} in
+          let '(e1, o1) := step cc w key_alg alg_known {| e_claims := Some c; e_msg := None |} (ESign true s) in
+          match o1 with
+          | OutTok (Tok (Some a) (Some p) sg) =>
+              let '(e2, o2) := step cc w key_alg alg_known {| e_claims := None; e_msg := None |} (EDecode (Tok (Some a) (Some p) sg)) in
+              let other := k mod 5 + 1 in
+              let vt (b : bool) := if b then s2b "ok" else s2b "err" in
+              match c_kind c, c_swc c, c_profile c with
+              | K2, Some [], _ => s2b "*"
+              | _, _, Some (POid _) => s2b "*"
+              | _, _, _ =>
+                  join_sp [ s2b "ok"; hex_of (enc (CMap [(CUint 1, enc_int a)])); hex_of p;
+                            out_tok o2; claims_tok (e_claims e2);
+                            vt (verify_ok cc w key_alg alg_known e2 k);
+                            vt (verify_ok cc w key_alg alg_known e1 k);
+                            vt (verify_ok cc w key_alg alg_known e2 other) ]
+              end
+          | _ => s2b "err"
+          end
+      | _, _ => bad_input
+      end
+  | [] => bad_input
+  end.
